@@ -150,7 +150,7 @@ def random_history(rng: random.Random, steps: int, wild_ok: bool):
     last = None
     for _ in range(steps):
         op = rng.choice(["add", "add", "add", "addvar", "addvar", "rmidx", "rmidxs", "rminst", "rminsts", "allow", "allow0",
-                         "require", "reindex", "find", "find", "rmdup", "addstr"])
+                         "require", "reindex", "find", "find", "rmdup", "addstr", "addderived"])
         n = len(net.reaction_list)
         if op == "add":
             d = random_reaction(rng, wild_ok, pool)
@@ -160,6 +160,16 @@ def random_history(rng: random.Random, steps: int, wild_ok: bool):
             d = variants_of(rng, rng.choice(seen))
             seen.append(d)
             net.add_reaction(mk(d))
+        elif op == "addderived" and n:
+            # a reaction DERIVED from one the network already holds (and may already have hashed): shallow copy, then every attribute
+            # that makes up its identity is rewritten -- the way reverse / isotopologue reactions are produced from a template
+            import copy
+            d = rng.choice(seen)
+            tmpl = mk(d)
+            new = copy.copy(rng.choice(net.reaction_list))
+            new.reactants, new.products = list(tmpl.reactants), list(tmpl.products)
+            new.temp_min, new.temp_max, new.reaction_type, new.idxfromfile = tmpl.temp_min, tmpl.temp_max, tmpl.reaction_type, tmpl.idxfromfile
+            net.add_reaction(new)
         elif op == "addstr":
             d = rng.choice(seen)
             s = f"{mk(d):naunet}"
